@@ -117,8 +117,11 @@ def r2(ctx: Context, sites) -> None:
             if isinstance(node, ast.Call) and nm == "_add_histories":
                 continue  # counted through its Attribute node
             n += 1
-            ok = f.name in allowed[nm] and (f.cls is not None)
-            ctx.add("R2", f"caller::{nm}::{f.qualname}", ok, f.loc(node), "" if ok else f"{nm} is used from {f.qualname}: a history entry without a status change (or a duplicate)")
+            owner = f
+            while owner.parent_func is not None:  # a local writer closure counts as its enclosing method
+                owner = owner.parent_func
+            ok = owner.name in allowed[nm] and (owner.cls is not None)
+            ctx.add("R2", f"caller::{nm}::{owner.qualname}", ok, f.loc(node), "" if ok else f"{nm} is used from {f.qualname}: a history entry without a status change (or a duplicate)")
     ctx.floor("R2", "history call sites", n, 4)
     sb = repo.cls("BaseStateBackend")
     for c in sb.all_subclasses():
@@ -165,12 +168,47 @@ def r3_r4(ctx: Context, sites) -> None:
         # thread target / args
         tk = {k.arg: k.value for k in thr[0].keywords}
         tgt = tk.get("target")
-        ok = tgt is not None and ast.unparse(tgt) == "self._add_histories"
-        ctx.add("R3", f"{f.qualname}::writer-target", ok, f.loc(thr[0]), "" if ok else f"target = {ast.unparse(tgt) if tgt is not None else None}")
-        args = tk.get("args")
         hist_names = assigned_from(f.node, lambda v: v is ctor[0])
-        ok = isinstance(args, ast.Tuple) and len(args.elts) == 2 and isinstance(args.elts[0], ast.List) and len(args.elts[0].elts) == 1 and ast.unparse(args.elts[0].elts[0]) == idtxt and isinstance(args.elts[1], ast.Name) and args.elts[1].id in hist_names
-        ctx.add("R3", f"{f.qualname}::writer-args", ok, f.loc(thr[0]), "" if ok else f"args = {ast.unparse(args) if args is not None else None}: not ([the entry's invocation id], the entry)")
+
+        def good_args(elts) -> bool:
+            return len(elts) == 2 and isinstance(elts[0], ast.List) and len(elts[0].elts) == 1 and ast.unparse(elts[0].elts[0]) == idtxt and isinstance(elts[1], ast.Name) and elts[1].id in hist_names
+
+        closure = None
+        if isinstance(tgt, ast.Name):
+            closure = next((n for n in ast.walk(f.node) if isinstance(n, (ast.FunctionDef, ast.AsyncFunctionDef)) and n is not f.node and n.name == tgt.id), None)
+        elif isinstance(tgt, ast.Lambda):
+            closure = tgt
+        if closure is None:
+            ok = tgt is not None and ast.unparse(tgt) == "self._add_histories"
+            ctx.add("R3", f"{f.qualname}::writer-target", ok, f.loc(thr[0]), "" if ok else f"target = {ast.unparse(tgt) if tgt is not None else None}")
+            args = tk.get("args")
+            ok = isinstance(args, ast.Tuple) and good_args(args.elts)
+            ctx.add("R3", f"{f.qualname}::writer-args", ok, f.loc(thr[0]), "" if ok else f"args = {ast.unparse(args) if args is not None else None}: not ([the entry's invocation id], the entry)")
+        else:
+            # the writer is a local closure: it must call self._add_histories([id], entry) and must not
+            # capture a name that is rebound before the thread may run (closure defined inside a loop
+            # that rebinds what it captures: late binding)
+            inner = [c for c in ast.walk(closure) if isinstance(c, ast.Call) and call_name(c) == "_add_histories"]
+            ok = len(inner) == 1 and isinstance(inner[0].func, ast.Attribute) and isinstance(inner[0].func.value, ast.Name) and inner[0].func.value.id == "self"
+            ctx.add("R3", f"{f.qualname}::writer-target", ok, f.loc(thr[0]), "" if ok else "the writer closure does not call self._add_histories exactly once")
+            ok = bool(inner) and good_args(inner[0].args) and not tk.get("args")
+            ctx.add("R3", f"{f.qualname}::writer-args", ok, f.loc(thr[0]), "" if ok else "the writer closure does not pass ([the entry's invocation id], the entry)")
+            own = {a.arg for a in ast.walk(closure.args) if isinstance(a, ast.arg)} | {n.id for n in ast.walk(closure) if isinstance(n, ast.Name) and isinstance(n.ctx, ast.Store)}
+            captured = {n.id for n in ast.walk(closure) if isinstance(n, ast.Name) and isinstance(n.ctx, ast.Load)} - own - {"self"}
+            pm_ = {id(ch): p for p in ast.walk(f.node) for ch in ast.iter_child_nodes(p)}
+            loops_around = []
+            cur = pm_.get(id(closure))
+            while cur is not None and cur is not f.node:
+                if isinstance(cur, (ast.For, ast.While, ast.AsyncFor)):
+                    loops_around.append(cur)
+                cur = pm_.get(id(cur))
+            rebound = set()
+            for lp in loops_around:
+                for n in ast.walk(lp):
+                    if isinstance(n, ast.Name) and isinstance(n.ctx, ast.Store) and not any(x is n for x in ast.walk(closure)):
+                        rebound.add(n.id)
+            hazard = sorted(captured & rebound)
+            ctx.add("R3", f"{f.qualname}::writer-closure-captures-by-value", not hazard, f.loc(closure), "" if not hazard else f"the writer closure is defined inside a loop and captures {hazard}, which the next iteration rebinds: a writer thread scheduled late records the LAST invocation's entry for every invocation of the batch (entries missing for the others)")
         # registry + order
         tnames = assigned_from(f.node, lambda v: v is thr[0])
         regs = [c for c in calls_in(f.node) if call_name(c) == "append" and self_attr(c.func) == "invocation_threads"]
